@@ -343,14 +343,13 @@ func rioOne(res *Result, drv *Driver, r *Rng, c *rioCase, idx int, path string, 
 			var target uint64
 			choice := o.off % 10
 			switch {
-			case o.seekIdx >= 0 && o.seekIdx < len(written):
+			case o.seekIdx >= 0 && o.seekIdx < len(written) && isSurvivorOffset(surv, written[o.seekIdx]):
 				target = written[o.seekIdx]
 				res.Stat("seek:nil-tail")
-			case choice < 6 && len(written) > 0:
-				target = written[int(o.off/16)%len(written)]
-				if target > w.Size() {
-					target = w.Size()
-				}
+			case choice < 6 && len(surv) > 0:
+				// only boundaries of records that still survive: an offset handed out for a record that was rolled
+				// back since is no record boundary any more (the property is about seeks to record boundaries)
+				target = surv[int(o.off/16)%len(surv)].off
 				res.Stat("seek:boundary")
 			case choice < 7:
 				target = w.Size()
@@ -713,3 +712,12 @@ func sigRio(c *rioCase, what string) string {
 
 var _ = errors.New
 var _ = io.EOF
+
+func isSurvivorOffset(surv []survivor, off uint64) bool {
+	for _, s := range surv {
+		if s.off == off {
+			return true
+		}
+	}
+	return false
+}
